@@ -71,6 +71,8 @@ def function(ip: Interp, fn: PyConst, args, kwargs, n):
             a = a.get() if isinstance(a, ZRec) else ip.z(a)
             if isinstance(a, (Opaque, FuncVal)):
                 a = a.ident
+            if isinstance(a, OpaqueSeq):
+                a = a.seq
             if not z3.is_expr(a):
                 ip.oos(f'argument of uninterpreted spec function {node.name}', n)
             zargs.append(a)
@@ -202,7 +204,8 @@ def function(ip: Interp, fn: PyConst, args, kwargs, n):
         return PyTuple(['__iter__', x])
     if name == 'getattr':
         obj, attr, *default = args
-        if isinstance(obj, PRec) and ip.w.registry.classes.get(obj.cls, {}).get('attrview') and not isinstance(attr, str):
+        if isinstance(obj, PRec) and ip.w.registry.classes.get(obj.cls, {}).get('attrview') \
+                and (not isinstance(attr, str) or (attr not in obj.f and ip.find_method(obj.cls, attr)[0] is None)):
             # an object seen as its attribute table (dkeys = names present, dvals = values): getattr(obj, <symbolic name>)
             k = ip.as_str(attr, n)
             if default:
@@ -457,10 +460,14 @@ def _is_recursive(node) -> bool:
 def _kind_sort(kind: str):
     if kind.startswith(('opaque:', 'func:')):
         return z3.IntSort()
+    if kind.startswith(('seq[opaque:', 'seq[func:')):
+        return z3.SeqSort(z3.IntSort())
     return S.sort_of(kind)
 
 
 def _wrap_kind(kind: str, term):
+    if kind.startswith(('seq[opaque:', 'seq[func:')):
+        return OpaqueSeq(kind[len('seq['):-1].replace('opaque:', ''), term)
     if kind.startswith('opaque:'):
         return Opaque(kind.split(':', 1)[1], term)
     if kind.startswith('func:'):
@@ -490,6 +497,8 @@ def _rec_spec_call(ip: Interp, node, args, n):
     f = recs[node.name]
     zargs = []
     for a, k in zip(args, kinds):
+        if isinstance(a, BoundMeth) and isinstance(a.recv, Opaque) and isinstance(a.target, PyConst) and a.target.kind == 'opaquemethod':
+            a = a.recv.ident  # `node._parse` as a function value (same convention as out_ok / out_frame)
         if isinstance(a, (Opaque, FuncVal)):
             a = a.ident
         if isinstance(a, ZRec):
@@ -557,6 +566,8 @@ def _default_term(ip, sortname, hint):
 
 
 def _default_field(ip, sortname, hint):
+    if sortname.startswith(('seq[func:', 'seq[opaque:')):
+        return OpaqueSeq(sortname[len('seq['):-1].replace('opaque:', ''), z3.Empty(z3.SeqSort(z3.IntSort())))
     srt = S.sort_of(sortname)
     if srt is None:
         return None
